@@ -396,6 +396,9 @@ class SpecMixin:
             i = i + self.list_len(st, base.t)  # only constant negative indices wrap in spec mode
         et = base.meta[1] if base.meta and base.meta[0] == "elemtype" else None
         v = z3.Select(self.list_items(st, base.t), i)
+        if base.ty not in ("list", "tuple"):
+            # statically unknown container (e.g. declared `dict|none`): decide by the run-time class
+            v = z3.If(smt.CLS[Val.r(base.t)] == smt.CLS_DICT, self.dict_val(st, base.t, idx.t), v)
         live = getattr(self, "_live", None)
         if live is not None:
             live.assume(z3.Implies(smt.is_ref(v), Val.r(v) < st.alloc))
